@@ -259,6 +259,11 @@ func runC05(c *core.Ctx) {
 			}
 			k.goit("add", "big")
 		}
+		k.MsgClass = w.Hist%2 == 1
+		if w.Hist%24 == 13 {
+			k.BoundaryFiles("blk/")
+			k.goit("add", "blk")
+		}
 		if w.Hist%4 == 2 {
 			// names that end or begin with white space (a blank, U+3000, U+00A0), as the only / the last child of a tree:
 			// what is listed must be the complete name
